@@ -65,6 +65,21 @@ def cachedKind (k : Kind) : Bool :=
   | some a => a.2.2.2
   | none => false
 
+/-- the classes an `except` clause must name to catch an exception of class `e` (the class itself and its bases) -/
+def errBases : Err → List String
+  | .valueError => ["ValueError", "Exception", "BaseException"]
+  | .keyError => ["KeyError", "LookupError", "Exception", "BaseException"]
+  | .indexError => ["IndexError", "LookupError", "Exception", "BaseException"]
+  | .typeError => ["TypeError", "Exception", "BaseException"]
+  | .attributeError => ["AttributeError", "Exception", "BaseException"]
+  | .runtimeError => ["RuntimeError", "Exception", "BaseException"]
+  | .parserError => ["Error", "Exception", "BaseException"]
+  | .other => ["Exception", "BaseException"]
+
+/-- `_load_metadata` turns this exception of `obj.load(path)` into the RuntimeError naming the file: it is an instance
+of one of the classes of the `except` clause as read from the source -/
+def wrapped (e : Err) : Bool := (errBases e).any (fun c => Gen.composeWrapped.contains c)
+
 /-- a loaded metadata object: `id` is its identity (fresh per load), `path` the file it came from -/
 structure Obj where
   id : Nat
@@ -93,8 +108,9 @@ def access (w : World) (s : State) (k : Kind) : State × Except CErr Obj :=
         let o : Obj := ⟨s.loads.length, k, path, text⟩
         if cachedKind k then ({ s1 with cache := fun k' => if k' = k then some o else s.cache k' }, .ok o)
         else (s1, .ok o)
-      | .error .valueError => (s1, .error (.runtime path))        -- "… can not be deserialized"
-      | .error e => (s1, .error (.other e))                       -- anything else propagates unchanged
+      | .error e =>
+        if wrapped e then (s1, .error (.runtime path))            -- "… can not be deserialized"
+        else (s1, .error (.other e))                              -- anything else propagates unchanged
 
 def accessAll (w : World) : State → List Kind → State × List (Except CErr Obj)
   | s, [] => (s, [])
